@@ -40,16 +40,38 @@ fn full(e: &Expr) -> String {
     match e {
         Expr::Unit { name } => name.clone(),
         Expr::Const { .. } => format!("{}", e),
-        Expr::BinOp(b) => format!("(({}){}({}))", full(&b.left), b.op.symbol(), full(&b.right)),
+        Expr::BinOp(b) => format!("(({}){}({}))", full(&b.left), op_text(b.op), full(&b.right)),
         Expr::UnaryOp(u) => match u.op {
             UnaryOpType::Negative => format!("(-({}))", full(&u.expr)),
             UnaryOpType::Positive => format!("(+({}))", full(&u.expr)),
-            UnaryOpType::Degree(d) => format!("(({}) {})", full(&u.expr), d),
+            UnaryOpType::Degree(d) => format!("(({}) {})", full(&u.expr), deg_text(d)),
         },
         Expr::Mul { exprs } => format!("({})", exprs.iter().map(|x| format!("({})", full(x))).collect::<Vec<_>>().join(" ")),
         Expr::Of { property, expr } => format!("({} of ({}))", property, full(expr)),
-        Expr::Call { func, args } => format!("{}({})", func.name(), args.iter().map(full).collect::<Vec<_>>().join(", ")),
+        Expr::Call { func, args } => format!("{}({})", fn_text(func), args.iter().map(full).collect::<Vec<_>>().join(", ")),
         _ => panic!(),
+    }
+}
+
+// the source spelling of every symbol, independent of the printers under test
+fn op_text(op: BinOpType) -> &'static str {
+    match op {
+        BinOpType::Add => " + ", BinOpType::Sub => " - ", BinOpType::Frac => " / ", BinOpType::Pow => "^", BinOpType::Equals => " = ",
+        BinOpType::ShiftL => " << ", BinOpType::ShiftR => " >> ", BinOpType::Mod => " mod ", BinOpType::And => " and ",
+        BinOpType::Or => " or ", BinOpType::Xor => " xor ",
+    }
+}
+
+fn deg_text(d: Degree) -> &'static str {
+    match d {
+        Degree::Celsius => "°C", Degree::Fahrenheit => "°F", Degree::Reaumur => "°Ré", Degree::Romer => "°Rø",
+        Degree::Delisle => "°De", Degree::Newton => "°N",
+    }
+}
+
+fn fn_text(f: &Function) -> &'static str {
+    match f {
+        Function::Sin => "sin", Function::Atan2 => "atan2", _ => panic!(),
     }
 }
 
